@@ -16,6 +16,8 @@ os.makedirs('/tmp/sc', exist_ok=True)
 run(['git', '-C', '/repo', 'worktree', 'remove', '--force', wt])
 rc, out = run(['git', '-C', '/repo', 'worktree', 'add', '--detach', wt, 'HEAD'])
 assert rc == 0, out
+if os.path.exists('/repo/cmd/legacydump/legacydump'):
+    shutil.copy('/repo/cmd/legacydump/legacydump', wt + '/cmd/legacydump/legacydump')  # git-ignored helper of migrate_test.go
 res = {'seed': seed, 'props': props}
 try:
     demos = glob.glob(seed + '/verifdemo_*_test.go')
@@ -61,7 +63,7 @@ try:
                 for l in lines:
                     if l.startswith('VIOLATION'):
                         rp = l.split('replay=')[1].strip()
-                        if os.path.exists(rp):
+                        if os.path.isfile(rp):
                             shutil.copy(rp, '/tmp/sc/replay_%s_%s.json' % (name, p))
             shutil.rmtree(scratch, ignore_errors=True)
 finally:
